@@ -61,8 +61,15 @@ Definition cached_pub (kty : string) : bool :=
 Definition thumb_of (ki : kimm) (d : dict) : res str :=
   if forallb (dmem d) (tpfields (ki_kty ki)) then Ok (ki_tp ki) else Err EKey.
 
-(* ---------- static part: class tables, registries, singletons ---------- *)
+(* ---------- static part: class tables, registries, singletons, and the registry
+   instances the CALLER created and shares between calls (allow-list, flags) ---------- *)
+Record creg := { cr_allowed : option (list string); cr_strict : bool }.
+Definition creg0 : creg := {| cr_allowed := None; cr_strict := true |}.
+(* the registry a call works with: its own (built from algorithms=) or a shared one (registry=) *)
+Inductive regref := ROwn (allowed : option (list string)) | RShared (r : nat).
+
 Record static := {
+  st_regs : list creg;                       (* caller-created JWSRegistry / JWERegistry instances *)
   st_jws_algs : list jws_alg_row;            (* JWSRegistry.algorithms: the singletons *)
   st_jws_reco : list string;                 (* JWSRegistry.recommended *)
   st_jwe_algs : list jwe_alg_row;
@@ -75,7 +82,8 @@ Record static := {
   st_jwe_default_allowed : option (list string)
 }.
 Definition static0 : static :=
-  {| st_jws_algs := jws_alg_table; st_jws_reco := jws_recommended;
+  {| st_regs := [];
+     st_jws_algs := jws_alg_table; st_jws_reco := jws_recommended;
      st_jwe_algs := jwe_alg_table; st_jwe_encs := jwe_enc_table; st_jwe_zips := jwe_zip_table;
      st_jwe_reco := jwe_recommended; st_ksalg := keyset_algorithm_keys;
      st_ops := jwk_operation_registry;
@@ -102,6 +110,14 @@ Definition set_vis (s : kst) (d : dict) : kst :=
   {| ks_objs := upd (ks_objs s) (ks_ptr s) d; ks_ptr := ks_ptr s; ks_pub := ks_pub s |}.
 Definition nonempty {A} (l : list A) : bool := match l with [] => false | _ => true end.
 
+Definition eff_allowed (st : static) (rr : regref) : option (list string) :=
+  match rr with ROwn a => a | RShared r => cr_allowed (nth r (st_regs st) creg0) end.
+Definition with_regs (st : static) (regs : list creg) : static :=
+  {| st_regs := regs; st_jws_algs := st_jws_algs st; st_jws_reco := st_jws_reco st; st_jwe_algs := st_jwe_algs st;
+     st_jwe_encs := st_jwe_encs st; st_jwe_zips := st_jwe_zips st; st_jwe_reco := st_jwe_reco st; st_ksalg := st_ksalg st;
+     st_ops := st_ops st; st_jws_default_allowed := st_jws_default_allowed st;
+     st_jwe_default_allowed := st_jwe_default_allowed st |}.
+
 Definition init_world (nkeys : nat) (sets : list (list nat)) : world :=
   {| w_keys := repeat kst0 nkeys; w_sets := sets; w_rng := 0; w_static := static0 |}.
 
@@ -120,8 +136,8 @@ Inductive action :=
 | ASetKeys (s : nat)                      (* self.keys of a shared KeySet *)
 | AAlgKeys (alg : string)                 (* KeySet.algorithm_keys.get(alg) *)
 | AOpReg (op : string)                    (* operation_registry[op].private *)
-| AJwsAlg (alg : string)                  (* registry.algorithms / recommended / the singleton's key_type *)
-| AJweAlg (alg enc : string)              (* JWERegistry.algorithms["alg"/"enc"], recommended, the singletons' attributes *)
+| AJwsAlg (alg : string) (rr : regref)    (* registry.algorithms / recommended / the singleton's key_type *)
+| AJweAlg (alg enc : string) (rr : regref) (* JWERegistry.algorithms["alg"/"enc"], recommended, the singletons' attributes *)
 | ADraw.                                  (* one draw from the shared random source *)
 
 Inductive obs :=
@@ -132,8 +148,8 @@ Inductive obs :=
 | OKeys (l : list nat)
 | OStrs (o : option (list string))
 | OOp (o : option (option bool))
-| OAlg (o : option (string * bool))       (* key_type of the singleton, is it recommended *)
-| OJwe (a : option (string * list string)) (areco : bool) (e : bool) (ereco : bool)
+| OAlg (o : option (string * bool)) (al : option (list string))   (* key_type of the singleton, recommended?, the registry's allow-list *)
+| OJwe (a : option (string * list string)) (areco : bool) (e : bool) (ereco : bool) (al : option (list string))
 | ODrawn (idx : N)
 | OIter (r : res (option str)).
 
@@ -167,15 +183,17 @@ Definition sem (im : imm) (a : action) (w : world) : world * obs :=
   | ASetKeys s => (w, OKeys (nth s (w_sets w) []))
   | AAlgKeys alg => (w, OStrs (slookup (st_ksalg (w_static w)) alg))
   | AOpReg op => (w, OOp (option_map ko_private (find_op (st_ops (w_static w)) op)))
-  | AJwsAlg alg =>
+  | AJwsAlg alg rr =>
       (w, OAlg (option_map (fun r => (ja_key_type r, smem alg (st_jws_reco (w_static w))))
-                           (find_jws (st_jws_algs (w_static w)) alg)))
-  | AJweAlg alg enc =>
+                           (find_jws (st_jws_algs (w_static w)) alg))
+               (eff_allowed (w_static w) rr))
+  | AJweAlg alg enc rr =>
       (w, OJwe (option_map (fun r => (ea_family r, ea_key_types r))
                            (find (fun r => String.eqb (ea_name r) alg) (st_jwe_algs (w_static w))))
                (smem alg (st_jwe_reco (w_static w)))
                (existsb (fun r => String.eqb (ee_name r) enc) (st_jwe_encs (w_static w)))
-               (smem enc (st_jwe_reco (w_static w))))
+               (smem enc (st_jwe_reco (w_static w)))
+               (eff_allowed (w_static w) rr))
   | ADraw =>
       ({| w_keys := w_keys w; w_sets := w_sets w; w_rng := w_rng w + 1; w_static := w_static w |},
        ODrawn (w_rng w))
@@ -465,10 +483,10 @@ Section Programs.
     match v with PStr (c :: s) => Some (c :: s) | _ => None end.
 
   (* registry.get_alg(alg) with the per-call allow-list *)
-  Definition get_alg (alg : string) (allowed : option (list string)) (o : obs) : res string :=
+  Definition get_alg (alg : string) (o : obs) : res string :=
     match o with
-    | OAlg None => Err (EJose UnsupportedAlgorithmError)
-    | OAlg (Some (kt, reco)) =>
+    | OAlg None _ => Err (EJose UnsupportedAlgorithmError)
+    | OAlg (Some (kt, reco)) allowed =>
         match allowed with
         | Some (x :: l) => if smem alg (x :: l) then Ok kt else Err (EJose UnsupportedAlgorithmError)
         | _ => if reco then Ok kt else Err (EJose UnsupportedAlgorithmError)
@@ -480,7 +498,7 @@ Section Programs.
      signature primitive: which key, which kid in the header, which verdict of
      the key checks *)
   Definition jws_op (sign : bool) (kr : keyref) (kid : option str) (alg : string)
-             (allowed : option (list string)) (crypto : option jcls) : prog (res pv) :=
+             (allowed : regref) (crypto : option jcls) : prog (res pv) :=
     (* the verdict of the signature primitive: an oracle, a pure function of the
        raw key and of the call's own arguments *)
     let fin (v : pv) : res pv := match crypto with None => Ok v | Some c => Err (EJose c) end in
@@ -499,8 +517,8 @@ Section Programs.
     let ktype_check (k : nat) (kt : string) (cont : prog (res pv)) : prog (res pv) :=
       if String.eqb (ki_kty (kim im k)) kt then cont else Ret (Err (EJose InvalidKeyTypeError)) in
     if sign then
-      Act "jws.getalg" (AJwsAlg alg) (fun o =>
-        match get_alg alg allowed o with
+      Act "jws.getalg" (AJwsAlg alg allowed) (fun o =>
+        match get_alg alg o with
         | Err e => Ret (Err e)
         | Ok kt =>
           pbindr (guess_key kr kid true alg) (fun kh =>
@@ -512,8 +530,8 @@ Section Programs.
       pbindr (guess_key kr kid false alg) (fun kh =>
         let k := fst kh in
         use_check k
-          (Act "jws.getalg" (AJwsAlg alg) (fun o =>
-             match get_alg alg allowed o with
+          (Act "jws.getalg" (AJwsAlg alg allowed) (fun o =>
+             match get_alg alg o with
              | Err e => Ret (Err e)
              | Ok kt => ktype_check k kt (pbindr (get_op_key k "verify") (fun _ => Ret (fin (snd kh))))
              end))).
@@ -523,9 +541,9 @@ Section Programs.
      IV draws of a producer, check_key_type, get_op_key *)
   Definition allowed_ok (name : string) (allowed : option (list string)) (reco : bool) : bool :=
     match allowed with Some (x :: l) => smem name (x :: l) | _ => reco end.
-  Definition jwe_reg (alg enc : string) (allowed : option (list string)) (o : obs) : res (string * list string) :=
+  Definition jwe_reg (alg enc : string) (o : obs) : res (string * list string) :=
     match o with
-    | OJwe a ar e er =>
+    | OJwe a ar e er allowed =>
         if e && allowed_ok enc allowed er then
           match a with
           | Some fk => if allowed_ok alg allowed ar then Ok fk else Err (EJose UnsupportedAlgorithmError)
@@ -538,14 +556,14 @@ Section Programs.
     if doit then Act l ADraw (fun _ => p) else p.
 
   Definition jwe_op (encrypt : bool) (kr : keyref) (kid : option str) (alg enc : string)
-             (allowed : option (list string)) (crypto : option jcls) : prog (res pv) :=
+             (allowed : regref) (crypto : option jcls) : prog (res pv) :=
     let fin (v : pv) : res pv := match crypto with None => Ok v | Some c => Err (EJose c) end in
     pbindr (guess_key kr kid encrypt alg) (fun kh =>
       let k := fst kh in
       pbindr (getf k (asc "use")) (fun u =>
         let cont :=
-          Act "jwe.reg" (AJweAlg alg enc) (fun o =>
-            match jwe_reg alg enc allowed o with
+          Act "jwe.reg" (AJweAlg alg enc allowed) (fun o =>
+            match jwe_reg alg enc o with
             | Err e => Ret (Err e)
             | Ok (fam, kts) =>
               let ktype (p : prog (res pv)) : prog (res pv) :=
@@ -573,9 +591,9 @@ Section Programs.
   | CGetByKid (s : nat) (kid : option str)
   | CPick (s : nat) (alg : string)
   | CSetAsDict (s : nat) (private : option bool)
-  | CJws (sign : bool) (kr : keyref) (kid : option str) (alg : string) (allowed : option (list string))
+  | CJws (sign : bool) (kr : keyref) (kid : option str) (alg : string) (allowed : regref)
          (crypto : option jcls)
-  | CJwe (encrypt : bool) (kr : keyref) (kid : option str) (alg enc : string) (allowed : option (list string))
+  | CJwe (encrypt : bool) (kr : keyref) (kid : option str) (alg enc : string) (allowed : regref)
          (crypto : option jcls).
 
   Definition compile (c : call) : prog (res pv) :=
